@@ -1227,6 +1227,21 @@ class ConfigList(UserList):
 
     # This method is on ConfigList()
     @logger.catch(reraise=True)
+    def _build_cfgobj(self, line: str) -> BaseCfgLine:
+        """Build a new configuration line object for ``line`` with this ConfigList()'s syntax and factory settings."""
+        if self.factory is True:
+            return config_line_factory(
+                all_lines=self.data,
+                line=line,
+                syntax=self.syntax,
+            )
+        return CFGLINE[self.syntax](
+            all_lines=self.data,
+            line=line,
+        )
+
+    # This method is on ConfigList()
+    @logger.catch(reraise=True)
     def insert_before(self,
                       exist_val: Optional[str] = None,
                       new_val: Optional[str] = None) -> None:
@@ -1315,8 +1330,10 @@ class ConfigList(UserList):
             if re.search(exist_val, list_obj.text)
         ]
         for idx in sorted(all_idx, reverse=True):
-            # insert at idx - 0 implements 'insert_before()'...
-            self.data.insert(idx, new_obj)
+            # insert at idx - 0 implements 'insert_before()'... build a
+            # distinct object for every match so the new lines do not alias
+            # each other
+            self.data.insert(idx, self._build_cfgobj(new_val))
 
         if bool(self.auto_commit):
             # The config is not safe unless this is called after the append
@@ -1420,7 +1437,9 @@ class ConfigList(UserList):
             if re.search(exist_val, list_obj._text)
         ]
         for idx in sorted(all_idx, reverse=True):
-            self.data.insert(idx + 1, new_obj)
+            # build a distinct object for every match so the new lines do
+            # not alias each other
+            self.data.insert(idx + 1, self._build_cfgobj(new_val))
 
         if bool(self.auto_commit):
             # The config is not safe unless this is called after the append
